@@ -3,7 +3,11 @@
 package server
 
 import (
+	"bytes"
 	"context"
+	"time"
+
+	"github.com/mimecast/dtail/internal/io/line"
 
 	"github.com/mimecast/dtail/internal/mapr"
 	"github.com/mimecast/dtail/internal/mapr/logformat"
@@ -37,4 +41,46 @@ func (a *Aggregate) VerifInterval(lines []string) []string {
 		out = append(out, m)
 	}
 	return out
+}
+
+// VerifRun runs the real server-side aggregator (Start: fieldsFromLines, set clause, aggregateAndSerialize) over the
+// lines of one file delivered through a registered lines channel; between two intervals an interim result is
+// requested the way the interval timer does (Serialize).  Returns every message the aggregator sent.  Where exactly
+// an interim result cuts the line stream is up to the aggregator's own timing; the final result does not depend on it.
+func (a *Aggregate) VerifRun(intervals [][]string) []string {
+	ctx, cancel := context.WithCancel(context.Background())
+	defer cancel()
+	out := make(chan string, 1<<16)
+	lines := make(chan *line.Line, 100)
+	a.NextLinesCh <- lines
+	done := make(chan struct{})
+	go func() {
+		a.Start(ctx, out)
+		close(done)
+	}()
+	var count uint64
+	for i, iv := range intervals {
+		for _, l := range iv {
+			count++
+			lines <- line.New(bytes.NewBufferString(l+"\n"), count, 100, "verif")
+		}
+		if i < len(intervals)-1 {
+			for len(lines) > 0 {
+				time.Sleep(200 * time.Microsecond)
+			}
+			time.Sleep(3 * time.Millisecond)
+			a.Serialize(ctx)
+		}
+	}
+	close(lines)
+	select {
+	case <-done:
+	case <-time.After(20 * time.Second):
+	}
+	close(out)
+	var msgs []string
+	for m := range out {
+		msgs = append(msgs, m)
+	}
+	return msgs
 }
